@@ -39,6 +39,9 @@ class Interp(object):
             return env.get(e.id, TOP)
         if isinstance(e, ast.Attribute) and isinstance(e.value, ast.Name):
             return self.attrs.get((e.value.id, e.attr), TOP)
+        if isinstance(e, ast.Subscript) and isinstance(e.value, ast.Name) and isinstance(e.slice, ast.Constant):
+            # an entry of a module-level table of constants: proj[5]
+            return self.attrs.get((e.value.id, e.slice.value), TOP)
         if isinstance(e, ast.UnaryOp) and isinstance(e.op, (ast.USub, ast.UAdd)):
             v = self.ev(e.operand, env)
             if v is TOP:
